@@ -219,9 +219,16 @@ class NativeContract(object):
         self.is_lemma = contract.is_lemma
         if not self.is_lemma:
             self.real = real_function(contract.target)
-            fn = contract.funcref()
-            self.names = contract.param_names(fn)
-            self.vararg = fn.node.args.vararg.arg if fn.node.args.vararg else None
+            try:
+                fn = contract.funcref()
+                self.names = contract.param_names(fn)
+                self.vararg = fn.node.args.vararg.arg if fn.node.args.vararg else None
+            except Exception:
+                # no def statement for the target in the source (generated by a factory ...): the real callable still has a signature
+                sig = inspect.signature(self.real)
+                self.names = [n for n, q in sig.parameters.items() if q.kind in (q.POSITIONAL_ONLY, q.POSITIONAL_OR_KEYWORD, q.VAR_POSITIONAL)]
+                va = [n for n, q in sig.parameters.items() if q.kind == q.VAR_POSITIONAL]
+                self.vararg = va[0] if va else None
         else:
             self.names = list(contract.args.keys())
             self.vararg = None
